@@ -121,6 +121,21 @@ def mapPin (w : W) (name : Nat) (p : Pin) : W × Out :=
     ({ w with mapping := w.mapping.map fun m => if m.1 == name then (name, p) else m }, .ok)
   else ({ w with mapping := w.mapping ++ [(name, p)] }, .ok)
 
+/-- `Model.put` / `Solver.put` with both pins given (as repaired): the placed structure `i` (a fresh object of the heap) is added and
+its pin `s` connected to the target `q` - after both pins were validated, so that a rejected put leaves nothing behind -/
+def put (w : W) (i : Nat) (s : Nat) (q : Pin) : W × Out :=
+  match getObj w i with
+  | none => (w, .exception)
+  | some o =>
+    if !(o.pins.contains s) then (w, .valueError)              -- the source pin is not a pin of the placed object
+    else if w.clist.contains q then (w, .valueError)            -- "Pin already connected"
+    else if !(w.free.contains q) then (w, .valueError)          -- unknown pin / not a free pin of the solver
+    else
+      let r := addStruct w i
+      match r.2 with
+      | .ok => connect r.1 (i, s) q
+      | out => (w, out)
+
 inductive Op
   | add (i : Nat) | connect (p q : Pin) | cut (i : Nat) | remove (i : Nat) | map (name : Nat) (p : Pin)
 deriving DecidableEq, Repr
@@ -147,14 +162,15 @@ def raiseAll (nameOf : Pin → Nat) (w : W) : W × Out :=
   let r := raiseLoop nameOf w.free w.mapping
   ({ w with mapping := r.1 }, r.2)
 
-/-- the wiring operations plus raise-all -/
+/-- the wiring operations plus raise-all and put -/
 inductive OpX
-  | base (op : Op) | raise
+  | base (op : Op) | raise | put (i : Nat) (s : Nat) (q : Pin)
 deriving DecidableEq, Repr
 
 def stepX (nameOf : Pin → Nat) (w : W) : OpX → W × Out
   | .base op => step w op
   | .raise => raiseAll nameOf w
+  | .put i s q => put w i s q
 
 /-- an empty solver over a heap of fresh structure objects with the given pin counts -/
 def init (pinCounts : List Nat) : W :=
